@@ -240,5 +240,20 @@ func c13Child(c *config) {
 			}
 		}
 	}
+	// witness scenario of KF-34: a function printed on its own while its never-printed module is printed
+	for i := 0; i < 60; i++ {
+		m := ir.NewModule()
+		m.NewGlobalDef("", constant.NewInt(types.I32, 1))
+		f := m.NewFunc("", types.Void)
+		f.NewBlock("").NewRet(nil)
+		var wg sync.WaitGroup
+		start := make(chan struct{})
+		wg.Add(2)
+		go func() { defer wg.Done(); <-start; _ = f.LLString() }()
+		go func() { defer wg.Done(); <-start; _ = m.String() }()
+		close(start)
+		wg.Wait()
+	}
+	o.Stat("kf34_scenarios")
 	o.Sample(map[string]interface{}{"goroutines": G, "rounds": rounds})
 }
